@@ -31,6 +31,16 @@ CHECKS = {
         "Observed through the text formatter (End is not printed).",
    technique="bounded symbolic execution of go/ssa + SMT feasibility, native replay of models",
    design="3/C12"),
+ "C13": dict(
+   level="model_checking",
+   text="Lattice laws: the real nilness lattice (merge table read with symbolic indices, kept on one path as ite chains), DenseMapLattice and MapLattice are executed symbolically over all triples "
+        "(elements symbolic; slice lengths / key presence enumerated) and the solver decides associativity, commutativity, idempotence, identity, and agreement of Merge/Equals with the pointwise model. "
+        "dense.Forward: whole runs of the real solver (worklist, heap, graph.Compact/ReversePostorder, In/Edge accessors) on every directed graph with 2 nodes (self-loops, 2-bit facts) and 3 nodes "
+        "(1-bit facts, gen-only and gen/kill transfer with symbolic coefficients, symbolic entry facts); the solver decides the fixpoint equations and leastness against an arbitrary symbolic pre-fixpoint.",
+   note="Bounds: graphs <= 3 nodes (self-loops at N=3 only in thorough), facts <= 2 bits, monotone gen/kill transfer functions. sparse.Forward (per-value solver) is not yet covered. "
+        "Graph shape is enumerated by forking; data-dependent worklist behaviour forks on fact comparisons.",
+   technique="bounded symbolic execution of go/ssa + SMT (z3/cvc5), native replay of models",
+   design="3/C13"),
 }
 
 NA = {
